@@ -20,6 +20,7 @@ type runCfg struct {
 	raftkvs.Config
 	MaxDev int
 	Name   string
+	Seed   string // see raftkvs.Build
 }
 
 type replay struct {
@@ -84,8 +85,10 @@ func TestCheck(t *testing.T) {
 			if err := json.Unmarshal(env.Replay, &r); err != nil {
 				t.Fatal(err)
 			}
-			sys := raftkvs.New(r.Cfg.Config)
-			sys.Observe = raftkvs.ObserveHistory
+			sys, err := raftkvs.Build(r.Cfg.Config, r.Cfg.Seed, raftkvs.ObserveHistory)
+			if err != nil {
+				t.Fatal(err)
+			}
 			states, _, _ := sys.Replay(r.Path)
 			res.Coverage = map[string]any{"states": len(states), "transitions": len(r.Path), "traces_validated_against_impl": 0, "samples": sys.Render(r.Path)}
 			for _, s := range states {
@@ -101,18 +104,21 @@ func TestCheck(t *testing.T) {
 		cfgs := []runCfg{
 			// one server (leader by construction): isolates client retries / duplicate responses
 			{raftkvs.Config{NumServers: 1, NumClients: 2, MaxTerm: 3, MaxCommitIndex: 6, FIFO: true, Budgeted: true,
-				Requests: [][]raftkvs.Req{{put("k", "v1"), get("k")}, {put("k", "v2")}}}, 1, "1srv-2cli-retry"},
+				Requests: [][]raftkvs.Req{{put("k", "v1"), get("k")}, {put("k", "v2")}}}, 1, "1srv-2cli-retry", ""},
 			{raftkvs.Config{NumServers: 2, NumClients: 2, MaxTerm: 3, MaxCommitIndex: 4, FIFO: true, Budgeted: true,
-				Requests: [][]raftkvs.Req{{put("k", "v1")}, {get("k")}}}, 0, "2srv-2cli"},
+				Requests: [][]raftkvs.Req{{put("k", "v1")}, {get("k")}}}, 0, "2srv-2cli", ""},
+			// leader change after an acknowledged put that one follower lacks; another client reads afterwards
+			{raftkvs.Config{NumServers: 3, NumClients: 2, MaxTerm: 4, MaxCommitIndex: 5, FIFO: true, Budgeted: true,
+				Requests: [][]raftkvs.Req{{put("k", "v1"), put("k", "v2")}, {get("k")}}}, 1, "3srv-acked-put-then-leader-change", "commit2-lagging"},
 		}
 		if env.Thorough() {
 			cfgs = append(cfgs,
 				runCfg{raftkvs.Config{NumServers: 1, NumClients: 2, MaxTerm: 3, MaxCommitIndex: 8, FIFO: true, Budgeted: true,
-					Requests: [][]raftkvs.Req{{put("k", "v1"), get("k")}, {put("k", "v2"), get("k")}}}, 2, "1srv-2cli-2x2"},
+					Requests: [][]raftkvs.Req{{put("k", "v1"), get("k")}, {put("k", "v2"), get("k")}}}, 2, "1srv-2cli-2x2", ""},
 				runCfg{raftkvs.Config{NumServers: 3, NumClients: 2, MaxTerm: 3, MaxCommitIndex: 4, FIFO: true, Budgeted: true, ExploreFail: true, MaxNodeFail: 1,
-					Requests: [][]raftkvs.Req{{put("k", "v1")}, {get("k")}}}, 1, "3srv-2cli-crash"},
+					Requests: [][]raftkvs.Req{{put("k", "v1")}, {get("k")}}}, 1, "3srv-2cli-crash", ""},
 				runCfg{raftkvs.Config{NumServers: 2, NumClients: 2, MaxTerm: 4, MaxCommitIndex: 5, FIFO: true, Budgeted: true,
-					Requests: [][]raftkvs.Req{{put("k", "v1"), get("j")}, {put("j", "v2"), get("k")}}}, 1, "2srv-2keys"})
+					Requests: [][]raftkvs.Req{{put("k", "v1"), get("j")}, {put("j", "v2"), get("k")}}}, 1, "2srv-2keys", ""})
 		}
 		if j := os.Getenv("VERIF_C09_CFGS"); j != "" {
 			cfgs = nil
@@ -138,8 +144,10 @@ func TestCheck(t *testing.T) {
 				}
 				func() {
 					defer func() { recover() }() // a witness that no longer fits the code is simply stale
-					sys := raftkvs.New(w.Replay.Cfg.Config)
-					sys.Observe = raftkvs.ObserveHistory
+					sys, err := raftkvs.Build(w.Replay.Cfg.Config, w.Replay.Cfg.Seed, raftkvs.ObserveHistory)
+					if err != nil {
+						return
+					}
 					states, _, _ := sys.Replay(w.Replay.Path)
 					witnessReplayed++
 					for _, s := range states {
@@ -162,8 +170,12 @@ func TestCheck(t *testing.T) {
 			if share < 5*time.Second {
 				share = 5 * time.Second
 			}
-			sys := raftkvs.New(cfg.Config)
-			sys.Observe = raftkvs.ObserveHistory
+			sys, err := raftkvs.Build(cfg.Config, cfg.Seed, raftkvs.ObserveHistory)
+			if err != nil {
+				per = append(per, map[string]any{"name": cfg.Name, "seed_not_applicable": err.Error()})
+				exhaustive = false
+				continue
+			}
 			r := sys.BFS(ss.BFSOptions{Workers: env.Workers, Deadline: time.Now().Add(share), Constraint: cfg.Constraint, MaxDev: cfg.MaxDev,
 				Invariants: []func(*ss.State) (string, string){histInv}, MaxViol: 5})
 			if r.MemoMismatch > 0 {
